@@ -336,6 +336,28 @@ func pasteMarkersOnly(got, exp []string) bool {
 	return strings.Join(g, ",") == strings.Join(e, ",")
 }
 
+// mouseButtonsOnly: the delivered tail has the events of want, in order, and differs only in the button mask of mouse events
+// (C12: motion while a button is held keeps that button, a release carries none — whatever mode-changing calls came between)
+func mouseButtonsOnly(got, want []string) bool {
+	n := len(want)
+	if len(got) < n {
+		return false
+	}
+	diff := false
+	for i, w := range want {
+		g := got[len(got)-n+i]
+		if g == w {
+			continue
+		}
+		gp, wp := strings.Split(g, "."), strings.Split(w, ".")
+		if !strings.HasPrefix(g, "M") || !strings.HasPrefix(w, "M") || len(gp) != 4 || len(wp) != 4 || gp[0] != wp[0] || gp[1] != wp[1] || gp[3] != wp[3] {
+			return false
+		}
+		diff = true
+	}
+	return diff
+}
+
 // tailCheck (op `checktail`): nothing was shut down; the second batch (op `more`) was injected after the first one had been
 // consumed completely, so its events are the tail of what was delivered (C11: pasted text arrives between ONE paste-start
 // and ONE paste-end, whatever came before)
@@ -359,6 +381,8 @@ func (sc *scenario) tailCheck() {
 		cls := "input-lost"
 		if pasteMarkersOnly(got, sc.exp2) {
 			cls = "paste-marker-lost"
+		} else if mouseButtonsOnly(got, sc.exp2) {
+			cls = "mouse-button-state-lost"
 		}
 		sc.find(cls, "%d input events were injected (%s) after the earlier input had been consumed, but the delivered tail is %s", n, clipList(sc.exp2, 20), clipList(tail, 40))
 	}
